@@ -116,7 +116,7 @@ def axiom_instances(ab: Abstraction, families=("basic", "mono", "bounds"), max_t
         if mono:
             out.append(tm.implies(tm.lt(u1, u2), tm.lt(e1, e2)))
             out.append(tm.implies(tm.lt(u2, u1), tm.lt(e2, e1)))
-    n_tr = 0
+    syntactic = len(E) > 8
     for i, (ei, (ui,), _) in enumerate(E):
         for j, (ej, (uj,), _) in enumerate(E):
             if j == i:
@@ -125,10 +125,10 @@ def axiom_instances(ab: Abstraction, families=("basic", "mono", "bounds"), max_t
                 if k == i:
                     continue
                 ek, (uk,), _ = E[k]
-                n_tr += 1
-                if n_tr > max_triples:
-                    break
-                out.append(tm.implies(tm.eq(ui, tm.add(uj, uk)), tm.eq(ei, tm.mul(ej, ek))))
+                cond = tm.eq(ui, tm.add(uj, uk))
+                if cond is tm.FALSE or (syntactic and cond is not tm.TRUE):
+                    continue
+                out.append(tm.implies(cond, tm.eq(ei, tm.mul(ej, ek))))
 
     # ---- log (facts conditional on positivity of the argument)
     L = A.get("log", [])
@@ -146,7 +146,7 @@ def axiom_instances(ab: Abstraction, families=("basic", "mono", "bounds"), max_t
         if mono:
             out.append(tm.implies(tm.and_(both, tm.lt(u1, u2)), tm.lt(l1, l2)))
             out.append(tm.implies(tm.and_(both, tm.lt(u2, u1)), tm.lt(l2, l1)))
-    n_tr = 0
+    syntactic = len(L) > 8
     for i, (li, (ui,), _) in enumerate(L):
         for j, (lj, (uj,), _) in enumerate(L):
             if j == i:
@@ -155,12 +155,12 @@ def axiom_instances(ab: Abstraction, families=("basic", "mono", "bounds"), max_t
                 if k == i:
                     continue
                 lk, (uk,), _ = L[k]
-                n_tr += 1
-                if n_tr > max_triples:
-                    break
+                cond = tm.eq(ui, tm.mul(uj, uk))
+                if cond is tm.FALSE or (syntactic and cond is not tm.TRUE):
+                    continue
                 out.append(
                     tm.implies(
-                        tm.and_(tm.gt(uj, Z), tm.gt(uk, Z), tm.eq(ui, tm.mul(uj, uk))),
+                        tm.and_(tm.gt(uj, Z), tm.gt(uk, Z), cond),
                         tm.eq(li, tm.add(lj, lk)),
                     )
                 )
